@@ -192,15 +192,56 @@ Theorem C14_helper_sequence_accepted :
 Proof. exact helper_sequence_accepted. Qed.
 Print Assumptions C14_helper_sequence_accepted.
 
-(* the theorem guard [helper_built_ok] of C14_spec_holds is exactly what [helper_claims]
-   gives for a clock reading inside the bracket of the call *)
+(* the theorem guard [helper_built_ok] of C14_spec_holds is exactly what [helper_claims_opt]
+   (= [helper_claims] when no delegated subject was asked, [h_sub h = None]) gives for a
+   clock reading inside the bracket of the call *)
 Theorem C14_helper_claims_built_ok :
   forall v h client auds life alg kid key tb,
   In alg accepted_algs -> In (v_issuer v) auds ->
-  h_t0 h <= tb -> tb <= h_t1 h -> h_life h = life ->
-  helper_built_ok v h (mkSig true alg kid key true) (helper_claims client auds life tb) = true.
+  h_t0 h <= tb -> tb <= h_t1 h -> h_life h = life -> h_client h = client ->
+  helper_built_ok v h (mkSig true alg kid key true) (helper_claims_opt client (h_sub h) auds life tb) = true.
 Proof. exact helper_claims_built_ok. Qed.
 Print Assumptions C14_helper_claims_built_ok.
+
+(* the op.SubjectCheck(f) option REPLACES the verifier's subject check: of any number of
+   such options the last one is in force - whatever was configured before it, the built-in
+   default op.SubjectIsIssuer included, is gone; without the option the default stays *)
+Theorem C14_subject_option_replaces :
+  forall before s,
+  subject_options (before ++ [s]) = s /\ subject_options [] = SubIsIssuer.
+Proof. exact subject_option_replaces. Qed.
+Print Assumptions C14_subject_option_replaces.
+
+(* the configured check - and nothing besides it - decides about the subject of an accepted
+   assertion: default => sub = iss; accept-all => any; a check for one subject => that one;
+   no check => nothing is accepted *)
+Theorem C14_assertion_subject_decided :
+  forall (verify : keyid -> sigdesc -> bool) v t now tok c,
+  verify_assertion verify v t now tok = Ok c ->
+  subject_allowed (v_sub v) (c_iss c) (c_sub c) = true.
+Proof. exact assertion_subject_decided. Qed.
+Print Assumptions C14_assertion_subject_decided.
+
+(* delegation: what a helper call writes when the caller passes
+   oidc.JWTProfileDelegatedSubject(s) ([dsub = Some s]; iss stays the client) - or no such
+   option ([None]: sub = iss) - is, under the remaining premises of C14_interop_fresh,
+   accepted EXACTLY when the verifier's configured subject check allows the asked subject:
+   a custom check that allows s accepts the delegated assertion (the default is no longer
+   consulted), the default check and a custom check for another subject refuse it. *)
+Theorem C14_interop_delegated :
+  forall (verify : keyid -> sigdesc -> bool) v t now tb client dsub kid key alg auds life,
+  (forall d, sd_intact d = true -> verify (sd_signer d) d = true) ->
+  lookup_key t client kid = Some key ->
+  In alg accepted_algs -> In (v_issuer v) auds ->
+  0 <= v_offset v ->
+  (v_max_age v = 0 \/ now - tb + second + half_second <= v_max_age v) ->
+  second <= tb -> tb <= now ->
+  now + v_offset v < (tb / second + life) * second ->
+  (verify_assertion verify v t now (helper_token_opt client dsub auds life alg kid key tb)
+   = Ok (helper_claims_opt client dsub auds life tb)
+   <-> subject_allowed (v_sub v) client (asked_sub dsub client) = true).
+Proof. exact interop_delegated. Qed.
+Print Assumptions C14_interop_delegated.
 
 (* a verifier that does not return is one without a subject check, however it was built;
    and the model of every entry point then answers "panicked", never an identity *)
@@ -214,7 +255,8 @@ Print Assumptions C14_nil_subject_check.
 (* the property predicate the check evaluates on the implementation's answers holds
    for the model on every input (clock bracket ordered; storage contract; what a helper
    call is assumed to send - [helper_built_ok]: accepted algorithm (see
-   C14_interop_eddsa_refuted), sub = iss, the configured issuer in aud, iat = a clock
+   C14_interop_eddsa_refuted), iss = the client the helper was configured with, sub = the
+   subject the caller asked the helper for (the client when none was asked), the configured issuer in aud, iat = a clock
    reading of THAT call and exp at least the asked lifetime later; the run checks every
    real helper path, called repeatedly on long-lived instances, against exactly this: the
    aud clause is what a helper that addresses only the token endpoint breaks, the
